@@ -1660,7 +1660,8 @@ impl ArchiveBuilder {
 
     /// Calculate file encryption key
     fn calculate_file_key(&self, filename: &str, file_pos: u64, file_size: u32, flags: u32) -> u32 {
-        let base_key = hash_string(filename, hash_type::FILE_KEY);
+        // The key is derived from the plain file name (without the directory part)
+        let base_key = hash_string(crate::path::plain_file_name(filename), hash_type::FILE_KEY);
 
         if flags & BlockEntry::FLAG_FIX_KEY != 0 {
             // For FIX_KEY, use only the low 32 bits of the file position
